@@ -111,7 +111,8 @@ func (e *Engine) registerIntrinsics() {
 			s := c.args[0].(Str)
 			b := c.args[1].(*Term)
 			if s.IsSym() || !b.IsConst() {
-				unsupported(c.pos(), "IndexByteString on symbolic data")
+				c.ret(symIndexByte(c, s, b))
+				return
 			}
 			c.ret(BV(64, uint64(int64(strings.IndexByte(s.S, byte(b.K))))))
 		},
@@ -119,12 +120,17 @@ func (e *Engine) registerIntrinsics() {
 			s := c.args[0].(Str)
 			b := c.args[1].(*Term)
 			if s.IsSym() || !b.IsConst() {
-				unsupported(c.pos(), "IndexByte on symbolic data")
+				c.ret(symIndexByte(c, s, b))
+				return
 			}
 			c.ret(BV(64, uint64(int64(strings.IndexByte(s.S, byte(b.K))))))
 		},
 		"strings.Index": func(c *icall) {
 			s, t := c.args[0].(Str), c.args[1].(Str)
+			if s.IsSym() && !t.IsSym() && len(t.S) == 1 {
+				c.ret(symIndexByte(c, s, BV(8, uint64(t.S[0]))))
+				return
+			}
 			if s.IsSym() || t.IsSym() {
 				unsupported(c.pos(), "strings.Index on symbolic data")
 			}
@@ -748,4 +754,23 @@ func intrBitsLen(c *icall) {
 		res = BinBV(OpBVSub, BV(64, uint64(w)), res)
 	}
 	c.ret(res)
+}
+
+// symIndexByte: index of the first byte equal to b in a string of concrete length with symbolic
+// bytes. Forks over the position (each feasible position is one path, so that the result - and
+// whatever is sliced with it - stays concrete).
+func symIndexByte(c *icall, s Str, b *Term) Value {
+	bs := s.Bytes()
+	lits := make([]*Term, 0, len(bs)+1)
+	none := TrueT
+	for i := range bs {
+		lits = append(lits, And(none, Eq(bs[i], b)))
+		none = And(none, Not(Eq(bs[i], b)))
+	}
+	lits = append(lits, none)
+	k := c.e.decide(c.w, c.st, "indexbyte", c.e.posStr(c.curPos()), lits)
+	if k == len(bs) {
+		return BV(64, uint64(0xFFFFFFFFFFFFFFFF))
+	}
+	return BV(64, uint64(k))
 }
